@@ -1,6 +1,7 @@
 import Ufw.Props.C04
 import Ufw.Tie.RegTable
 import Ufw.Tie.RegFns.Geometry
+import Ufw.Tie.RegFns.EndToEnd
 #print axioms Ufw.Props.C04.orderCheck_go_none
 #print axioms Ufw.Props.C04.orderCheck_go_some
 #print axioms Ufw.Props.C04.init_outcome
@@ -26,3 +27,6 @@ import Ufw.Tie.RegFns.Geometry
 #print axioms Ufw.Tie.RegFns.gen_reg_range_touches
 #print axioms Ufw.Tie.RegFns.overlap_iff_touches_zero
 #print axioms Ufw.Tie.RegFns.gen_ra_range_touches
+#print axioms Ufw.Tie.RegFns.ofNat_address
+#print axioms Ufw.Tie.RegFns.c_taint_selects
+#print axioms Ufw.Tie.RegFns.c_foreach_overlap
